@@ -195,6 +195,8 @@ func (r *report) finish() int {
 	stubs := map[string]int{}
 	unsupported := map[string]int{}
 	unwind := 0
+	rewrites, audits, byModel, folded := 0, 0, 0, 0
+	var auditFail []string
 	vacuous := []string{}
 	var samples []any
 	paths := 0
@@ -217,6 +219,11 @@ func (r *report) finish() int {
 		for k, n := range st.Unsupported {
 			unsupported[k] += n
 		}
+		rewrites += st.Rewrites
+		audits += st.Audits
+		byModel += st.ByModel
+		folded += st.Folded
+		auditFail = append(auditFail, st.AuditFail...)
 		for k, n := range st.Aborted {
 			if strings.HasPrefix(k, "unwind") {
 				unwind += n
@@ -296,6 +303,14 @@ func (r *report) finish() int {
 	for _, s := range r.machinery {
 		fmt.Println("ERROR:", s)
 	}
+	for i, s := range auditFail {
+		if i < 10 {
+			fmt.Println("ERROR audit:", s)
+		}
+	}
+	if len(auditFail) > 0 {
+		r.machinery = append(r.machinery, "rewriting audit failed")
+	}
 	for _, s := range vacuous {
 		fmt.Println("ERROR vacuous:", s)
 	}
@@ -312,7 +327,10 @@ func (r *report) finish() int {
 		"transitions":                   transitions,
 		"traces_validated_against_impl": r.selfMatch + r.replays,
 		"samples":                       samples,
-		"evaluations":                   evals,
+		"evaluations":                   evals + folded,
+		"assertions_discharged_by_solver": evals,
+		"assertions_folded_by_path_equalities": folded,
+		"rewriting": map[string]any{"infeasible_by_rewriting": rewrites, "audited_with_cvc5": audits, "audit_mismatches": len(auditFail), "feasible_by_verified_model": byModel, "audit_every": r.cfg.AuditEvery},
 		"distinct_nontrivial":           distinct,
 		"rule":                          "a case is one complete feasible path of a harness through the real code's SSA (one equivalence class of inputs: same branch outcomes, same map-key matches, same iteration orders); evaluations = property assertions discharged unsat by the solver(s); a path is non-trivial when at least one of its property assertions still contained a symbolic variable when sent to the solver; paths are distinct by construction (distinct decision sequences)",
 		"exhaustive":                    complete && len(unsupported) == 0 && len(r.inconclusive) == 0,
@@ -342,6 +360,9 @@ func (r *report) finish() int {
 	os.MkdirAll(filepath.Join(r.root, "evidence"), 0o755)
 	os.WriteFile(filepath.Join(r.root, "evidence", r.cfg.Prop+".json"), b, 0o644)
 
+	if os.Getenv("GOSYM_DBG") != "" {
+		fmt.Println("dbg", dbg)
+	}
 	fmt.Printf("property=%s tier=%s harnesses=%d paths=%d assertions_discharged=%d queries=%d+%d known_findings=%d violations=%d spurious=%d selftest=%d/%d wall=%.1fs exit=%d\n",
 		r.cfg.Prop, r.cfg.Tier, len(sh.hs), paths, evals, sh.Queries, sh.ZQueries, len(r.knownHit), len(r.newViol), r.spurious, r.selfMatch, r.selfRuns, r.wall.Seconds(), code)
 	return code
@@ -354,4 +375,27 @@ func keysOf(m map[string]string) []string {
 	}
 	sort.Strings(ks)
 	return ks
+}
+
+func init() {
+	if os.Getenv("GOSYM_DBG") == "" {
+		return
+	}
+	dbgFail = func(ex *Exec, t *Term) {
+		m := ex.candidate(t, nil)
+		fmt.Fprintln(os.Stderr, "---- candidate failed for", t.smt())
+		if m == nil {
+			fmt.Fprintln(os.Stderr, "   no candidate")
+			return
+		}
+		if !holds(t, m) {
+			c, ok := evalTerm(t, m)
+			fmt.Fprintln(os.Stderr, "   alt itself fails", c, ok)
+		}
+		for _, p := range ex.pc {
+			if !holds(p, m) {
+				fmt.Fprintln(os.Stderr, "   pc fails:", p.smt())
+			}
+		}
+	}
 }
